@@ -190,6 +190,10 @@ def build_instance(name, p):
         return inst(["CS1", "CS0"][rl % 2], ("+", a, b), m_same_operands_changed)
     if name == "CS-mul":
         return inst("CS1", ("*", a, b), m_same_operands_changed)
+    if name == "CS0-mul":
+        # preferred=False only keeps products that already are in preferred order (4x, 8y^4) from commuting;
+        # a product whose left factor is not a constant and whose right factor is not a variable power still commutes
+        return inst("CS0", ("*", a, b), m_same_operands_changed)
     if name == "CS-chain":
         op = "+" if rl % 2 else "*"
         return inst("CS1", (op, (op, a, b), c), m_same_operands_changed)
@@ -364,7 +368,7 @@ def _sum_folded(res, lhs, k1, k2):
 
 
 SCHEMAS = [
-    "CS-add", "CS-mul", "CS-chain", "CS-flip", "CS-refuse", "AG-left", "AG-right", "AG-both", "AG-refuse", "CA-simple", "CA-neg", "CA-sibling", "CA-alt", "CA-refuse",
+    "CS-add", "CS-mul", "CS0-mul", "CS-chain", "CS-flip", "CS-refuse", "AG-left", "AG-right", "AG-both", "AG-refuse", "CA-simple", "CA-neg", "CA-sibling", "CA-alt", "CA-refuse",
     "DF-simple", "DF-chained-left", "DF-chained-right", "DF-constants", "DF-constants-refuse", "DF-refuse", "DM-right", "DM-left", "DM-refuse", "MI", "MI-neg",
     "MI-refuse", "RS-sub", "RS-sub-const", "RS-sub-term", "RS-sub-quotient", "RS-sub-negconst", "RS-sub-negvar", "RS-sub-negterm", "RS-add-negconst", "RS-add-negterm", "RS-refuse",
     "VM", "VM-refuse", "BM-add", "BM-add3", "BM-mul", "BM-refuse", "CA-zero",
@@ -384,6 +388,9 @@ def params(draw, name):
             p["B"] = draw(S.atom().filter(lambda a: a[0] in ("v", "^", "sgn")))
         if name in ("CS-add", "CS-mul", "CS-flip"):
             p["B"] = draw(S.atom().filter(lambda x: norm(x) != norm(p["A"])))
+        if name == "CS0-mul":
+            p["A"] = draw(S.atom().filter(lambda x: x[0] != "c"))
+            p["B"] = draw(S.atom().filter(lambda x: norm(x) != norm(p["A"]) and not (x[0] == "^" and x[1][0] == "v" and x[2][0] == "c")))
         if name == "CS-chain":
             p["G"] = draw(S.atom().filter(lambda x: norm(x) != norm(p["B"])))
     elif name.startswith("MI") or name.startswith("RS") or name.startswith("BM") or name in ("DF-chained-left", "DF-chained-right", "CA-alt"):
